@@ -953,6 +953,23 @@ class BuiltinMixin:
     def m_dict_pop(self, st, r, o, args, kwargs):
         key = args[0]
         has_default = len(args) > 1
+        if isinstance(key, Opt):
+            # None is never one of the (integer / string) keys of the modelled dicts
+            if self.feasible(st.pc, key.isnone):
+                s0 = st.assume(key.isnone)
+                yield (s0, args[1]) if has_default else (s0, RaiseV(self.exc("KeyError", key)))
+            if self.feasible(st.pc, z3.Not(key.isnone)):
+                yield from self.m_dict_pop(st.assume(z3.Not(key.isnone)), r, o, [key.val] + list(args[1:]), kwargs)
+            return
+        if self.is_int(key) and self.pyconst(key) is None:
+            for s1, k1 in self.split_symbolic_int_key(st, o, key):
+                if k1 is None:
+                    yield (s1, args[1]) if has_default else (s1, RaiseV(self.exc("KeyError", key)))
+                elif k1 is key:
+                    raise Unsupported("pop by a symbolic dict key")
+                else:
+                    yield from self.m_dict_pop(s1, r, s1.obj(r), [k1] + list(args[1:]), kwargs)
+            return
         kc = self.key_const(key)
         for i, e in enumerate(o.items):
             if self.key_const(e[0]) == kc:
